@@ -219,7 +219,14 @@ func (s *SSD) lookup(q lookupQuery) (matches message.Frame) {
 				continue
 			}
 
-			if matchesSize += len(msg.Payload) + len(msg.ID) + len(msg.Channel); matchesSize > mqtt.MaxMessageSize {
+			// A message which by itself is larger than a response may be can never be returned; it
+			// must not end the page, or nothing older than it could ever be queried.
+			size := len(msg.Payload) + len(msg.ID) + len(msg.Channel)
+			if size > mqtt.MaxMessageSize {
+				continue
+			}
+
+			if matchesSize += size; matchesSize > mqtt.MaxMessageSize {
 				break
 			}
 
